@@ -1,4 +1,5 @@
-"""Per-property configuration of the check driver."""
+"""Per-property configuration of the check driver: one JSON file per property in tools/props/."""
+import json, os, glob
 
 # Axioms declared by Coq's standard library that theorems may depend on (named in
 # DESIGN.md section 6 and in every evidence file that uses them).
@@ -6,31 +7,10 @@ AXIOM_ALLOW = {
     "ClassicalDedekindReals.sig_forall_dec",
     "ClassicalDedekindReals.sig_not_dec",
     "FunctionalExtensionality.functional_extensionality_dep",
-    "functional_extensionality_dep",
     "Classical_Prop.classic",
-    "classic",
-    "sig_forall_dec",
-    "sig_not_dec",
 }
 
-COMMON_TB = [
-    "Coq 8.16.1 kernel (coqc, vm_compute for the correspondence shards; no native_compute)",
-    "hand-written Gallina model tied to /repo by the correspondence check (differential testing, bounded by its generators)",
-    "tools/constants.py (regex translator of constants/tables into coq/gen/Constants.v)",
-    "mock clock hook src/verif_clock.rs (--cfg indicatif_verif) replacing std::time::Instant",
-    "rustc/cargo, the harness crate /verif/harness",
-]
-
-PROPS = {
-    "C07": {
-        "bin": "c07",
-        "trusted_base": COMMON_TB + [
-            "atomicity of AtomicU64::fetch_add/fetch_sub/store (hardware, portable-atomic): modelled as one step; lost updates only stress-tested",
-        ],
-        "assumptions": [
-            "arguments are u64 (op_wf)",
-            "each atomic RMW is a single step of the interleaving semantics",
-            "fraction() in [0,1] is checked by the oracle on the implementation (Flocq theorem in C13's development)",
-        ],
-    },
-}
+_HERE = os.path.dirname(os.path.abspath(__file__))
+PROPS = {}
+for _p in sorted(glob.glob(os.path.join(_HERE, "props", "C*.json"))):
+    PROPS[os.path.basename(_p)[:-5]] = json.load(open(_p))
